@@ -42,6 +42,14 @@ def main():
                                          must_reach=['setter-checked', 'other-track-checked'], eng_opts=eo, replay='none', time_limit=1500, allow_throw='none', label=name + ':clear'))
                     jobs.append(dict(harness=harness, ll=ll, entry='h_c06', params=p, models=['zlib_identity', kv + ('_slow' if gen == 1 and op == 15 else '')], known=ck.known,
                                      must_reach=['setter-checked', 'other-track-checked'], eng_opts=eo, replay='none', time_limit=1500, allow_throw='none', label=name))
+    # a stored waveform must survive the other setters (found with seeded change C06-3: a "refresh" of the overview waveform inside set_sample_rate):
+    # pre-state with a 3-entry waveform (resampled to the recommended extents on create), then the numeric setters with a symbolic new value
+    for gen, harness, kv, schemas in GENS:
+        ll = driver.compile_ir(harness)
+        for op in (14, 15, 4, 13) if Q else (14, 15, 4, 13, 2, 7, 9, 11):
+            p = dict(schema=schemas[0], op=op, slot=0, focus=GROUP.get(op, 3), mask=ALL, grid=0, cues=0x01, loops=0, wave=3, gen=gen, vcues=0x01, vloops=0)
+            jobs.append(dict(harness=harness, ll=ll, entry='h_c06', params=p, models=['zlib_identity', kv + ('_slow' if gen == 1 and op == 15 else '')], known=ck.known,
+                             must_reach=['setter-checked', 'other-track-checked'], eng_opts=eo, replay='none', time_limit=1500, allow_throw='none', label=SETTERS[op] + ':waveform-kept'))
     if os.environ.get('VERIF_GEN'): jobs = [j for j in jobs if str(j['params']['gen']) == os.environ['VERIF_GEN']]
     ck.add_results(run_jobs(jobs))
     ck.extra['bounds'] = {'setters': sorted(SETTERS.values()), 'slots': 'per-slot setters at slot 0 and 7 (thorough: every slot 0..7)',
